@@ -27,47 +27,48 @@ Qed.
 Lemma trunc_mag_zero : forall e, trunc_mag 0 e = 0.
 Proof. intro e. unfold trunc_mag. destruct (0 <=? e); [reflexivity | apply Zdiv_0_l]. Qed.
 
-(* what the conversion sees of a double: its truncation, or nothing for NaN and the infinities *)
-Definition in_int64 (d : Z) : Prop :=
-  match trunc_int d with Some n => - 2 ^ 63 <= n < 2 ^ 63 | None => True end.
-
 Lemma nan_inf_zero_pos_int : forall d, nan_inf_zero d = true -> pos_int d = 0.
 Proof.
   intros d. unfold nan_inf_zero, pos_int, trunc_int. destruct (decode d) as [|neg|neg m e]; try reflexivity.
   intro H. apply Z.eqb_eq in H. subst m. rewrite trunc_mag_zero. destruct neg; reflexivity.
 Qed.
 
-Lemma go_int64_in_range : forall d, in_int64 d -> nan_inf_zero d = false -> go_int64 d = pos_int d.
+(* the truncating remainder is congruent to its dividend *)
+Lemma rem_mod_mul : forall n c k, 0 < k -> 0 < c -> (Z.rem n (c * k)) mod k = n mod k.
 Proof.
-  intros d. unfold in_int64, go_int64, pos_int, nan_inf_zero, trunc_int.
-  destruct (decode d) as [|neg|neg m e]; try discriminate.
-  intros [H1 H2] _.
-  destruct (Z.leb_spec (- 2 ^ 63) (sgn_m neg (trunc_mag m e))); try lia.
-  destruct (Z.ltb_spec (sgn_m neg (trunc_mag m e)) (2 ^ 63)); try lia. reflexivity.
+  intros n c k Hk Hc.
+  pose proof (Z.quot_rem' n (c * k)) as H.
+  rewrite H at 2.
+  replace (c * k * (n ÷ (c * k)) + Z.rem n (c * k)) with (Z.rem n (c * k) + (c * (n ÷ (c * k))) * k) by ring.
+  rewrite Z_mod_plus_full. reflexivity.
 Qed.
 
-Theorem m_to_int32_correct : forall d, in_int64 d -> m_to_int32 d = to_int32 d.
+Lemma rem_mod : forall n k, 0 < k -> (Z.rem n k) mod k = n mod k.
+Proof. intros n k Hk. pose proof (rem_mod_mul n 1 k Hk ltac:(lia)) as H. rewrite Z.mul_1_l in H. exact H. Qed.
+
+(* 9.5: on every bit pattern *)
+Theorem m_to_int32_correct : forall d, m_to_int32 d = to_int32 d.
 Proof.
-  intros d Hin. unfold m_to_int32, to_int32.
+  intros d. unfold m_to_int32, to_int32.
   destruct (nan_inf_zero d) eqn:E.
   - rewrite (nan_inf_zero_pos_int d E). reflexivity.
-  - rewrite (go_int64_in_range d Hin E). apply wrap_s32_spec.
+  - unfold go_mod32_int64. rewrite wrap_s32_spec. cbv zeta. rewrite (rem_mod (pos_int d) (2 ^ 32)) by reflexivity. reflexivity.
 Qed.
 
-Theorem m_to_uint32_correct : forall d, in_int64 d -> m_to_uint32 d = to_uint32 d.
+Theorem m_to_uint32_correct : forall d, m_to_uint32 d = to_uint32 d.
 Proof.
-  intros d Hin. unfold m_to_uint32, to_uint32.
+  intros d. unfold m_to_uint32, to_uint32.
   destruct (nan_inf_zero d) eqn:E.
   - rewrite (nan_inf_zero_pos_int d E). reflexivity.
-  - rewrite (go_int64_in_range d Hin E). reflexivity.
+  - unfold go_mod32_int64, wrap_u. apply rem_mod. reflexivity.
 Qed.
 
-Theorem m_to_uint16_correct : forall d, in_int64 d -> m_to_uint16 d = to_uint16 d.
+Theorem m_to_uint16_correct : forall d, m_to_uint16 d = to_uint16 d.
 Proof.
-  intros d Hin. unfold m_to_uint16, to_uint16.
+  intros d. unfold m_to_uint16, to_uint16.
   destruct (nan_inf_zero d) eqn:E.
   - rewrite (nan_inf_zero_pos_int d E). reflexivity.
-  - rewrite (go_int64_in_range d Hin E). reflexivity.
+  - unfold go_mod32_int64, wrap_u. change (2 ^ 32) with (2 ^ 16 * 2 ^ 16). apply rem_mod_mul; reflexivity.
 Qed.
 
 (* the ES5 results are the residues 9.5-9.7 ask for *)
@@ -86,16 +87,6 @@ Proof. intro d. unfold to_uint32. change (2 ^ 32) with 4294967296. lia. Qed.
 Theorem to_uint16_char : forall d,
   0 <= to_uint16 d < 2 ^ 16 /\ (to_uint16 d - pos_int d) mod 2 ^ 16 = 0.
 Proof. intro d. unfold to_uint16. change (2 ^ 16) with 65536. lia. Qed.
-
-(* outside the int64 range otto's three conversions all give 0 *)
-Theorem m_to_int_beyond : forall d n, trunc_int d = Some n -> (n < - 2 ^ 63 \/ 2 ^ 63 <= n) ->
-  m_to_int32 d = 0 /\ m_to_uint32 d = 0 /\ m_to_uint16 d = 0.
-Proof.
-  intros d n Ht Hn. unfold m_to_int32, m_to_uint32, m_to_uint16, go_int64. rewrite Ht.
-  assert (E : ((- 2 ^ 63 <=? n) && (n <? 2 ^ 63)) = false).
-  { destruct (Z.leb_spec (- 2 ^ 63) n); destruct (Z.ltb_spec n (2 ^ 63)); try reflexivity; lia. }
-  rewrite E. destruct (nan_inf_zero d); repeat split; reflexivity.
-Qed.
 
 (* ---------- 9.2 ToBoolean, 11.4.3 typeof ---------- *)
 
@@ -274,34 +265,4 @@ Proof.
     rewrite <- Z1, <- Z2.
     destruct (m1 =? 0); destruct (m2 =? 0); cbn [andb];
       destruct (is_neg l); destruct (is_neg r); reflexivity.
-Qed.
-
-(* ---------- operand order of a + b ---------- *)
-
-(* otto's order (ToPrimitive of the left operand, then GetValue of the right
-   variable) and the ES5 order (GetValue first) are indistinguishable whenever
-   the left operand's conversion completes normally without writing a variable *)
-Theorem plus_getvalue_commutes : forall A (k : prim -> value -> M A) v n st p st',
-  to_primitive 0 v st = (Ok p, st') ->
-  vars st' = vars st ->
-  nth_error (vars st) n <> None ->
-  (lp <- to_primitive 0 v ;; rv <- getvar n ;; k lp rv) st =
-  (rv <- getvar n ;; lp <- to_primitive 0 v ;; k lp rv) st.
-Proof.
-  intros A k v n st p st' E Hv Hn.
-  unfold bind, getvar. rewrite E. rewrite Hv.
-  destruct (nth_error (vars st) n) as [rv|]; [|congruence].
-  rewrite E. reflexivity.
-Qed.
-
-(* a sufficient syntactic condition: a method that assigns no variable leaves them all unchanged *)
-Definition meth_pure (m : meth) : Prop :=
-  match m with MDo (Some _) _ => False | _ => True end.
-
-Lemma call_meth_vars : forall h w m st, meth_pure m ->
-  vars (snd (call_meth h w m st)) = vars st.
-Proof.
-  intros h w m st Hp. destruct m as [|setv r| |r]; try reflexivity.
-  - destruct setv; [contradiction|]. unfold call_meth, bind, logk, ret, throw. cbn. destruct r; reflexivity.
-  - unfold call_meth. destruct r; reflexivity.
 Qed.
